@@ -224,23 +224,23 @@ Section WithQueryer.
   (* a nested query is balanced when its context is a legitimate child of ours *)
   Hypothesis nq_balc : forall c cc, child_cx_ok v6 c cc = true -> balc v6 nest c (nq cc).
   (* the first query of a detached walk is balanced under any run (IPv6Access only) *)
-  Hypothesis nq0_balc : v6 = true -> forall c, balc v6 nest c (nq0 cx_fresh).
+  Hypothesis nq0_balc : v6 = true -> forall c, cx_walk c = false -> balc v6 nest c (nq0 cx_fresh).
   (* validation stays inside the run it validates for *)
   Hypothesis vq_balc : forall c, balc v6 nest c (vq c).
 
   Lemma child_ns : forall c, child_cx_ok v6 c (nsl_cx c) = true.
   Proof.
-    intros c. unfold child_cx_ok, nsl_cx. cbn. rewrite !Nat.eqb_refl, Bool.eqb_reflx. cbn.
-    rewrite !Bool.orb_true_r. reflexivity.
+    intros c. unfold child_cx_ok, nsl_cx. cbn. rewrite !Nat.eqb_refl, !Bool.eqb_reflx. cbn.
+    rewrite ?Bool.orb_true_r. reflexivity.
   Qed.
   Lemma child_dname : forall c, (N.of_nat (cx_dname c) <? max_dname_depth) = true ->
-    child_cx_ok v6 c (mk_cx (cx_be c) (cx_chase c) (S (cx_dname c)) (cx_nsl c)) = true.
+    child_cx_ok v6 c (mk_cx (cx_be c) (cx_chase c) (S (cx_dname c)) (cx_nsl c) (cx_walk c)) = true.
   Proof.
     intros c H. unfold child_cx_ok. cbn. rewrite H, !Nat.eqb_refl, !Bool.eqb_reflx. cbn.
-    rewrite Bool.orb_true_r. reflexivity.
+    rewrite ?Bool.orb_true_r. reflexivity.
   Qed.
   Lemma child_chase : forall c, (N.of_nat (cx_chase c) <? max_cname_chase_depth) = true ->
-    child_cx_ok v6 c (mk_cx (cx_be c) (S (cx_chase c)) (cx_dname c) (cx_nsl c)) = true.
+    child_cx_ok v6 c (mk_cx (cx_be c) (S (cx_chase c)) (cx_dname c) (cx_nsl c) (cx_walk c)) = true.
   Proof.
     intros c H. unfold child_cx_ok. cbn. rewrite H, !Nat.eqb_refl, !Bool.eqb_reflx. reflexivity.
   Qed.
@@ -285,7 +285,8 @@ Section WithQueryer.
           apply balc_choose. intros [|has] _.
           -- destruct (inspectb _) as [E|E]; [|apply balc_ret]. apply REC. apply ob_level; exact E.
           -- apply balc_bind.
-             ++ apply balc_if; [intros Ev|apply balc_ret]. apply balc_choose. intros h6 _. apply ns_lookups_balc_gen. apply nq0_balc. exact Ev.
+             ++ apply balc_if; [intros Ev|apply balc_ret]. apply Bool.andb_true_iff in Ev. destruct Ev as [Ev Ew]. apply Bool.negb_true_iff in Ew.
+                apply balc_choose. intros h6 _. apply ns_lookups_balc_gen. apply nq0_balc; assumption.
              ++ intros _. destruct (inspectb _) as [E|E]; [|apply balc_ret]. apply balc_choose. intros n' _. apply balc_choose. intros l' Hl'.
                 apply REC. apply ob_descend; exact E.
     - apply balc_ret.
@@ -343,7 +344,7 @@ Section ValidatorBal.
   Variable nq nq0 : cx -> prog reply.
   Variable nest : nat.
   Hypothesis nq_balc : forall c cc, child_cx_ok v6 c cc = true -> balc v6 nest c (nq cc).
-  Hypothesis nq0_balc : v6 = true -> forall c, balc v6 nest c (nq0 cx_fresh).
+  Hypothesis nq0_balc : v6 = true -> forall c, cx_walk c = false -> balc v6 nest c (nq0 cx_fresh).
 
   Lemma subq_balc : forall inner c, (forall cc, balc v6 nest cc (inner cc)) ->
     balc v6 nest c (subq maxdepth qmin v6 Smax Fmax nq nq0 nest inner c).
@@ -417,12 +418,12 @@ Proof.
       rewrite Nat.eqb_refl. cbn [andb]. rewrite Bool.andb_true_r.
       replace (S (N.to_nat max_queryer_recursion - S q'') <=? N.to_nat max_queryer_recursion)%nat with true; [reflexivity|].
       symmetry. apply Nat.leb_le. lia. }
-    assert (NQ0 : v6 = true -> forall c0, balc v6 nest c0 (detached maxdepth qmin v6 Smax Fmax Lmax G gen cx_fresh)).
-    { intros Ev c0 l0 st0 _ _. destruct gen as [|g']; cbn [detached]; [apply b_ret|].
+    assert (NQ0 : v6 = true -> forall c0, cx_walk c0 = false -> balc v6 nest c0 (detached maxdepth qmin v6 Smax Fmax Lmax G gen cx_fresh)).
+    { intros Ev c0 Hw l0 st0 _ Hc0. destruct gen as [|g']; cbn [detached]; [apply b_ret|].
       pose proof maxQ_pos as Hpos.
       replace (N.to_nat max_queryer_recursion) with (S (N.to_nat max_queryer_recursion - 1)) at 1 by lia.
       apply IHg; [lia|lia|].
-      unfold child_ok, detached_root. cbn [sl_nest sl_cx sl_direct negb]. rewrite Ev.
+      unfold child_ok, detached_root. cbn [sl_nest sl_cx sl_direct negb]. rewrite Ev, Hc0, Hw.
       replace (N.to_nat max_queryer_recursion - (N.to_nat max_queryer_recursion - 1))%nat with 1%nat by lia.
       cbn. rewrite Bool.orb_true_r. reflexivity. }
     apply b_int; [|intros; apply b_ret].
@@ -433,9 +434,9 @@ Proof.
     + intros r. apply b_end. apply b_enf. intros []; apply b_ret.
 Qed.
 
-Lemma client_balc : forall maxdepth qmin v6 Smax Fmax Lmax G gen c, balc v6 0 c (client maxdepth qmin v6 Smax Fmax Lmax G gen c).
+Lemma client_balc : forall maxdepth qmin v6 Smax Fmax Lmax G gen c, balc v6 0 c (clientg maxdepth qmin v6 Smax Fmax Lmax G gen c).
 Proof.
-  intros. unfold client. pose proof maxQ_pos as Hpos.
+  intros. unfold clientg. pose proof maxQ_pos as Hpos.
   assert (NQ : forall c0 cc, child_cx_ok v6 c0 cc = true ->
                balc v6 0 c0 (queryg maxdepth qmin v6 Smax Fmax Lmax G gen (N.to_nat max_queryer_recursion) cc)).
   { intros c0 cc Hcc l0 st0 Hn0 Hc0.
@@ -443,10 +444,10 @@ Proof.
     apply queryg_bal; [lia|]. unfold child_ok. cbn [sl_nest sl_cx sl_direct negb andb]. rewrite Hn0, Hc0, Hcc.
     replace (N.to_nat max_queryer_recursion - (N.to_nat max_queryer_recursion - 1))%nat with 1%nat by lia.
     cbn. reflexivity. }
-  assert (NQ0 : v6 = true -> forall c0, balc v6 0 c0 (detached maxdepth qmin v6 Smax Fmax Lmax G gen cx_fresh)).
-  { intros Ev c0 l0 st0 _ _. destruct gen as [|g']; cbn [detached]; [apply b_ret|].
+  assert (NQ0 : v6 = true -> forall c0, cx_walk c0 = false -> balc v6 0 c0 (detached maxdepth qmin v6 Smax Fmax Lmax G gen cx_fresh)).
+  { intros Ev c0 Hw l0 st0 _ Hc0. destruct gen as [|g']; cbn [detached]; [apply b_ret|].
     replace (N.to_nat max_queryer_recursion) with (S (N.to_nat max_queryer_recursion - 1)) at 1 by lia.
-    apply queryg_bal; [lia|]. unfold child_ok, detached_root. cbn [sl_nest sl_cx sl_direct negb]. rewrite Ev.
+    apply queryg_bal; [lia|]. unfold child_ok, detached_root. cbn [sl_nest sl_cx sl_direct negb]. rewrite Ev, Hc0, Hw.
     replace (N.to_nat max_queryer_recursion - (N.to_nat max_queryer_recursion - 1))%nat with 1%nat by lia.
     cbn. rewrite Bool.orb_true_r. reflexivity. }
   apply (pipeline_balc maxdepth qmin v6 Smax Fmax _ _ _ 0 NQ NQ0).
@@ -454,7 +455,7 @@ Proof.
 Qed.
 
 Lemma client_call_tree_lemma : forall maxdepth qmin v6 Smax Fmax Lmax G gen c adv w,
-  tree_run v6 (mk_sl 0 c) [] (trace adv (client maxdepth qmin v6 Smax Fmax Lmax G gen c) w) = Some (mk_sl 0 c, []).
+  tree_run v6 (mk_sl 0 c) [] (trace adv (clientg maxdepth qmin v6 Smax Fmax Lmax G gen c) w) = Some (mk_sl 0 c, []).
 Proof.
   intros. apply (bal_tree_run v6 (mk_sl 0 c, []) (mk_sl 0 c, [])). apply client_balc; reflexivity.
 Qed.
@@ -471,7 +472,7 @@ Proof.
 Qed.
 
 Lemma client_pairs_lemma : forall maxdepth qmin v6 Smax Fmax Lmax G gen c adv w,
-  forallb (pair_ok v6) (pairs_of (mk_sl 0 c) [] (trace adv (client maxdepth qmin v6 Smax Fmax Lmax G gen c) w)) = true.
+  forallb (pair_ok v6) (pairs_of (mk_sl 0 c) [] (trace adv (clientg maxdepth qmin v6 Smax Fmax Lmax G gen c) w)) = true.
 Proof. intros. eapply tree_run_pairs. apply client_call_tree_lemma. Qed.
 
 (* what a legitimate step means for the depth counters: every sub-run that starts has a nesting of at most
